@@ -314,23 +314,31 @@ class LowerArithCmpi(RewritePattern):
                 rewriter.replace(op, [riscv.SltOp(lhs, rhs)])
             # sle
             case 3:
+                slt = riscv.SltOp(rhs, lhs)
+                xori = riscv.XoriOp(slt, 1)
+                rewriter.replace(op, [slt, xori])
+            # sgt
+            case 4:
+                rewriter.replace(op, [riscv.SltOp(rhs, lhs)])
+            # sge
+            case 5:
                 slt = riscv.SltOp(lhs, rhs)
                 xori = riscv.XoriOp(slt, 1)
                 rewriter.replace(op, [slt, xori])
             # ult
-            case 4:
+            case 6:
                 rewriter.replace(op, [riscv.SltuOp(lhs, rhs)])
             # ule
-            case 5:
-                sltu = riscv.SltuOp(lhs, rhs)
+            case 7:
+                sltu = riscv.SltuOp(rhs, lhs)
                 xori = riscv.XoriOp(sltu, 1)
                 rewriter.replace(op, [sltu, xori])
             # ugt
-            case 6:
+            case 8:
                 rewriter.replace(op, [riscv.SltuOp(rhs, lhs)])
             # uge
-            case 7:
-                sltu = riscv.SltuOp(rhs, lhs)
+            case 9:
+                sltu = riscv.SltuOp(lhs, rhs)
                 xori = riscv.XoriOp(sltu, 1)
                 rewriter.replace(op, [sltu, xori])
             case _:
